@@ -709,4 +709,136 @@ theorem tv_split_last {cts : List CTok} {xs : List Tok} {y : Tok} (h : cts.map C
       · have := congrArg Prod.fst h2
         simpa [CTok.tv, Tok.tv] using this
 
+
+/-! ### where `_consume_value_until` stops -/
+
+theorem Yields.split {cfg : LexCfg} : ∀ {xs ys : List Tok} {b b' : Buf}, Yields cfg b (xs ++ ys) b' →
+    ∃ bm, Yields cfg b xs bm ∧ Yields cfg bm ys b' := by
+  intro xs
+  induction xs with
+  | nil => intro ys b b' h; exact ⟨b, .nil _, h⟩
+  | cons x xs ih =>
+    intro ys b b' h
+    cases h with
+    | cons htok hrest =>
+      obtain ⟨bm, h1, h2⟩ := ih hrest
+      exact ⟨bm, .cons htok h1, h2⟩
+
+/-- the top level of a value for the terminator set `types`: tokens that are neither
+    terminators nor openers, and bracket groups with properly nested content -/
+inductive TopLevel (types : List String) : List String → Prop
+  | nil : TopLevel types []
+  | atom (t : String) (rest : List String) : types.contains t = false → Gen.balancedTokenMap.lookup t = none →
+      TopLevel types rest → TopLevel types (t :: rest)
+  | group (o cl : String) (inner rest : List String) : types.contains o = false →
+      Gen.balancedTokenMap.lookup o = some cl → Nested inner → TopLevel types rest →
+      TopLevel types (o :: (inner ++ cl :: rest))
+
+/-- `_consume_value_until(rtoks, *types)` on a stream that yields a value (top-level shape
+    `TopLevel types`) followed by a terminator: it returns `rtoks` followed by exactly the
+    value's tokens, and the terminator is left in the stream (read and pushed back). -/
+theorem consumeValueUntil_stops (env : Env) (types : List String) (tys : List String) (hn : TopLevel types tys) :
+    ∀ (vals : List Tok), vals.map (·.type) = tys → ∀ (term : Tok), types.contains term.type = true →
+    ∀ (G F : Nat) (rtoks : List CTok) (w : World) (bmid b' : Buf),
+    Yields env.cfg w.buf vals bmid → tokenEofOk env.cfg bmid = .ok (some term, b') →
+    vals.length + 1 ≤ F → vals.length + 1 ≤ G →
+    ∃ (w' : World) (res : List CTok) (t' : Tok),
+      interp env (P.loopN (F + 1) rtoks (fun rtoks => do
+        match (← P.tokenIfNot types) with
+        | none => pure (.inr rtoks)
+        | some tok =>
+          if P.isBalancedStart tok.type then do
+            let more ← P.consumeBalancedTokens (G + 1) [tok]
+            pure (.inl (rtoks ++ more))
+          else pure (.inl (rtoks ++ [tok])))) w = (w', .ok res) ∧
+      w'.buf = Cxx.returnToken t' b' ∧ t'.tv = term.tv ∧ SameParse w w' ∧
+      res.map CTok.tv = rtoks.map CTok.tv ++ vals.map Tok.tv := by
+  induction hn with
+  | nil =>
+    intro vals hv term hterm G F rtoks w bmid b' hy htok _ _
+    cases vals with
+    | cons v vs => simp at hv
+    | nil =>
+      cases hy
+      have hho := handOut_same ({ w with buf := b' } : World) term
+      obtain ⟨hsame0, hbuf, hty, hval⟩ := hho
+      have hsame := (SameParse.setBuf w b').trans hsame0
+      refine ⟨{ (({ w with buf := b' } : World).handOut term).2 with
+          buf := Cxx.returnToken ((({ w with buf := b' } : World).handOut term).2.toTok (({ w with buf := b' } : World).handOut term).1) b' },
+        rtoks, _, ?_, rfl, ?_, ?_, by simp⟩
+      · simp only [P.loopN, bind, interp_bind, P.tokenIfNot, interp_tokenIfP, htok, hty, hterm, Bool.not_true,
+          Bool.false_eq_true, ↓reduceIte, pure, interp]
+        simp only [List.map_cons, List.map_nil, Cxx.returnTokens, List.singleton_append, hbuf]
+        rfl
+      · simp [Tok.tv, World.toTok, hty, hval]
+      · exact hsame.trans (SameParse.setBuf _ _)
+  | atom t rest hnt hl _ ih =>
+    intro vals hv term hterm G F rtoks w bmid b' hy htok hF hG
+    cases vals with
+    | nil => simp at hv
+    | cons v vs =>
+      simp only [List.map_cons, List.cons.injEq] at hv
+      obtain ⟨hvt, hvs⟩ := hv
+      cases hy with
+      | cons htokv hrest =>
+        rename_i b1
+        have hho := handOut_same ({ w with buf := b1 } : World) v
+        obtain ⟨hsame0, hbuf, hty, hval⟩ := hho
+        have hsame := (SameParse.setBuf w b1).trans hsame0
+        cases F with
+        | zero => simp at hF
+        | succ F =>
+          obtain ⟨w', res, t', hw, hb, ht', hsp, hres⟩ := ih vs hvs term hterm G F
+            (rtoks ++ [(({ w with buf := b1 } : World).handOut v).1]) _ bmid b' (by rw [hbuf]; exact hrest) htok
+            (by simp at hF; omega) (by simp at hG; omega)
+          refine ⟨w', res, t', ?_, hb, ht', hsame.trans hsp, ?_⟩
+          · have hns : P.isBalancedStart t = false := by simp [P.isBalancedStart, hl]
+            rw [P.loopN]
+            simp only [bind, interp_bind, P.tokenIfNot, interp_tokenIfP, htokv, hty, hvt, hnt, Bool.not_false, ↓reduceIte,
+              hns, Bool.false_eq_true, pure, interp]
+            exact hw
+          · rw [hres]; simp [CTok.tv, Tok.tv, hty, hval]
+  | group o cl inner rest hnt hl hin _ ih =>
+    intro vals hv term hterm G F rtoks w bmid b' hy htok hF hG
+    cases vals with
+    | nil => simp at hv
+    | cons v vs =>
+      simp only [List.map_cons, List.cons.injEq] at hv
+      obtain ⟨hvt, hvs⟩ := hv
+      obtain ⟨vi, vrest, hsplit, hvi, hvr⟩ := List.map_eq_append_iff.mp hvs
+      cases vrest with
+      | nil => simp at hvr
+      | cons vc vr =>
+        simp only [List.map_cons, List.cons.injEq] at hvr
+        obtain ⟨hvc, hvr⟩ := hvr
+        subst hsplit
+        cases hy with
+        | cons htokv hrest =>
+          rename_i b1
+          have hho := handOut_same ({ w with buf := b1 } : World) v
+          obtain ⟨hsame0, hbuf, hty, hval⟩ := hho
+          have hsame := (SameParse.setBuf w b1).trans hsame0
+          -- the group: inner ++ [closer], then the rest
+          have hre : vi ++ vc :: vr = (vi ++ [vc]) ++ vr := by simp
+          rw [hre] at hrest
+          obtain ⟨bm, hy1, hy2⟩ := Yields.split hrest
+          have hlv : Gen.balancedTokenMap.lookup (({ w with buf := b1 } : World).handOut v).1.type = some cl := by
+            rw [hty, hvt]; exact hl
+          obtain ⟨w2, more, hw2, hb2, hsp2, hmore⟩ := consumeBalanced_region env _ cl hlv vi vc (by rw [hvi]; exact hin) hvc
+            _ bm G (by rw [hbuf]; exact hy1) (by simp only [List.length_cons, List.length_append] at hG; omega)
+          have hlen : vr.length + 1 ≤ F := by simp only [List.length_cons, List.length_append] at hF; omega
+          cases F with
+          | zero => omega
+          | succ F =>
+            obtain ⟨w', res, t', hw, hb, ht', hsp, hres⟩ := ih vr hvr term hterm G F (rtoks ++ more) w2 bmid b'
+              (by rw [hb2]; exact hy2) htok (by simp only [List.length_cons, List.length_append] at hF; omega)
+              (by simp only [List.length_cons, List.length_append] at hG; omega)
+            refine ⟨w', res, t', ?_, hb, ht', (hsame.trans hsp2).trans hsp, ?_⟩
+            · have hs : P.isBalancedStart o = true := by simp [P.isBalancedStart, hl]
+              rw [P.loopN]
+              simp only [bind, interp_bind, P.tokenIfNot, interp_tokenIfP, htokv, hty, hvt, hnt, Bool.not_false, ↓reduceIte,
+                hs, hw2, pure, interp]
+              exact hw
+            · rw [hres, List.map_append, hmore]; simp [CTok.tv, Tok.tv, hty, hval]
+
 end Cxx
